@@ -109,6 +109,15 @@ def install():
             return orig(x)
         return f
 
+    @stub(onp, "isscalar", "a symbolic scalar (S / CS) is a scalar, like the float / complex it stands for")
+    @takes_orig
+    def isscalar(orig):
+        def f(x):
+            if isinstance(x, (S, CS)):
+                return True
+            return orig(x)
+        return f
+
     def _re(e):
         if isinstance(e, CS):
             return e.re
